@@ -185,6 +185,7 @@ Lemma FFCDHKey_unpack_safe data :
         (FFCDHKey_unpack data).
 Proof.
   unfold FFCDHKey_unpack. destruct (negb (beqb _ c_FFCDH_KEY_MAGIC)); [reflexivity|].
+  cbv zeta. destruct (k_ffcdhkey_short _ _); [reflexivity|].
   cbn [SafeP ffk_key_length ffk_field_order]. intros Hw.
   set (kl := le_val (slice (Some 4) (Some 8) data)).
   assert (Hkl : 0 <= kl) by (apply le_val_nonneg, wfb_slice, Hw). split; [assumption|].
@@ -482,3 +483,12 @@ Proof. vm_compute. repeat split; discriminate. Qed.
 Example ex_wfb_needed :
   compute_kek sym SHA512 STR_DH [] [1] (c_FFCDH_KEY_MAGIC ++ [1; 0; 0; 0] ++ [-5] ++ [2] ++ [3]) = Raise OverflowError.
 Proof. vm_compute. reflexivity. Qed.
+
+(* the key length a DH key blob announces is bounded by the size of the blob, so the fixed-width
+   encodings sized by it (shared secret, ephemeral public key) are linear in the input *)
+Lemma FFCDHKey_length_bounded data k : FFCDHKey_unpack data = Ok k -> 8 + 3 * ffk_key_length k <= len data.
+Proof.
+  unfold FFCDHKey_unpack. destruct (negb (beqb _ c_FFCDH_KEY_MAGIC)); [discriminate|]. cbv zeta.
+  destruct (k_ffcdhkey_short (len data) (le_val (slice (Some 4) (Some 8) data))) eqn:E; [discriminate|].
+  intros H. apply Ok_inj in H. subst k. cbn [ffk_key_length]. unfold k_ffcdhkey_short in E. lia.
+Qed.
